@@ -505,7 +505,23 @@ func c03(c *Ctx) {
 	if fn := c.Fn(tx, "R2", "decodeHex"); fn != nil {
 		h := fn.Obj.Type().(*types.Signature).Params().At(0)
 		subj := loopSubject(fn, h)
-		if subj == nil {
+		if subj == nil && indexedOverAll(fn, h) {
+			// the loop runs over the bytes by index — for i := 0; i < len(h); i++ { … h[i] … }: the subject is the expression h[i]
+			// (every byte of a multi-byte character is above 0x7f, so the accepted strings are those of accepted bytes)
+			tinfo := tx.Pkg.TypesInfo
+			consts := map[int64]bool{}
+			tx.intConstsIn(fn, map[*FuncInfo]bool{}, consts)
+			diff, n := charSetDiff(charPoints(consts, types.Typ[types.Uint8]), func(p int64) (bool, bool) {
+				pe2 := &predEval{ix: tx, extra: func(e ast.Expr) (constant.Value, bool) {
+					if ie, ok := e.(*ast.IndexExpr); ok && sameVar(tinfo, ie.X, h) {
+						return constant.MakeInt64(p), true
+					}
+					return nil, false
+				}}
+				return pe2.loopAccepts(fn, nil, p)
+			}, func(p int64) bool { return inRange(p, '0', '9') || inRange(p, 'a', 'f') })
+			c.Check(diff == "", "R2", "trace|decodeHex|accepted set = 0-9a-f ("+itoa(n)+" points)", at(tx.M, fn.Pos()), "upper-case and non-hex rejected before hex.DecodeString (byte loop)", "decodeHex "+diff)
+		} else if subj == nil {
 			c.Undecided("R2", "trace|decodeHex|accepted set = lower hex", at(tx.M, fn.Pos()), "per-character variable not found")
 		} else {
 			consts := map[int64]bool{}
@@ -618,40 +634,54 @@ func c03(c *Ctx) {
 		g := px.FG(fn)
 		nparam := fn.Obj.Type().(*types.Signature).Params().At(2)
 		up := px.Func("upperHex")
-		okLen, okUp, okDec := false, false, false
-		for _, x := range g.Nodes {
-			for _, e := range x.Succs {
-				if e.Cond == nil || e.Pol < 0 {
-					continue
-				}
-				// atoms of the false edge of a disjunction: collect on the negative edge
-			}
+		// structural: every return that can report success — `return true`, or `return <tests>` with the tests written into the
+		// result — has len(part)==n, !upperHex(part) and err==nil established, by the branches leading to it or as conjuncts of the result
+		okLen, okUp, okDec := true, true, true
+		nSucc := 0
+		atoms := []func(cnd ast.Expr, pol int) bool{
+			func(cnd ast.Expr, pol int) bool {
+				l, op, r, ok := cmpNorm(cnd, pol)
+				return ok && op == token.EQL && sameVar(pinfo, r, nparam) && isLenOf(pinfo, l, func(ast.Expr) bool { return true })
+			},
+			func(cnd ast.Expr, pol int) bool { return pol < 0 && callToDecl(pinfo, up)(cnd) },
+			func(cnd ast.Expr, pol int) bool {
+				nn, ok := nilCmp(pinfo, cnd, pol, func(y ast.Expr) bool { return isErrVar(pinfo, y) })
+				return ok && !nn
+			},
 		}
-		// structural: the true return is dominated by len(part)==n, !upperHex(part), err==nil
 		for _, x := range g.Nodes {
 			rs, ok := x.N.(*ast.ReturnStmt)
 			if !ok || len(rs.Results) == 0 {
 				continue
 			}
-			tv := pinfo.Types[rs.Results[len(rs.Results)-1]]
-			if tv.Value == nil || tv.Value.Kind() != constant.Bool || !constant.BoolVal(tv.Value) {
+			res := rs.Results[len(rs.Results)-1]
+			tv := pinfo.Types[res]
+			if b, isB := tv.Type.Underlying().(*types.Basic); !isB || b.Info()&types.IsBoolean == 0 {
 				continue
 			}
-			okLen, _ = g.DominatedByEdges(x, func(e *GEdge) bool {
-				return edgeImplies(e, func(cnd ast.Expr, pol int) bool {
-					l, op, r, ok := cmpNorm(cnd, pol)
-					return ok && op == token.EQL && sameVar(pinfo, r, nparam) && isLenOf(pinfo, l, func(ast.Expr) bool { return true })
-				})
-			})
-			okUp, _ = g.DominatedByEdges(x, func(e *GEdge) bool {
-				return edgeImplies(e, func(cnd ast.Expr, pol int) bool { return pol < 0 && callToDecl(pinfo, up)(cnd) })
-			})
-			okDec, _ = g.DominatedByEdges(x, func(e *GEdge) bool {
-				return edgeImplies(e, func(cnd ast.Expr, pol int) bool {
-					nn, ok := nilCmp(pinfo, cnd, pol, func(y ast.Expr) bool { return isErrVar(pinfo, y) })
-					return ok && !nn
-				})
-			})
+			if tv.Value != nil && tv.Value.Kind() == constant.Bool && !constant.BoolVal(tv.Value) {
+				continue
+			}
+			nSucc++
+			for k, atom := range atoms {
+				held, _ := g.DominatedByEdges(x, func(e *GEdge) bool { return edgeImplies(e, atom) })
+				if !held && tv.Value == nil {
+					held = condHolds(res, +1, atom)
+				}
+				if !held {
+					switch k {
+					case 0:
+						okLen = false
+					case 1:
+						okUp = false
+					case 2:
+						okDec = false
+					}
+				}
+			}
+		}
+		if nSucc == 0 {
+			okLen = false
 		}
 		c.Check(okLen && okUp && okDec, "R2", "propagation|extractPart|true only for exact width, no upper-case, hex.Decode success", at(px.M, fn.Pos()), "all three tests dominate the success return", "a traceparent field of the wrong width / with upper-case or non-hex characters is accepted")
 	}
@@ -2158,4 +2188,57 @@ func ruleParseDupKey(c *Ctx, tx *PkgIndex, rule string) {
 	}
 	c.Check(bad == "", rule, "trace|ParseTraceState|duplicates are detected on the key the member is stored under", at(tx.M, pos), itoa(n)+" access(es) of the seen-set, all by a member's Key",
 		"a key that differs from an earlier one only in the optional whitespace the member parser strips is not recognised as a duplicate: the tracestate holds the key twice — "+bad)
+}
+
+// indexedOverAll: every element access over[...] in fn sits in a loop `for i := 0; i < len(over); i++` (or `for i := range over` /
+// `range len(over)`) and is indexed by that loop's variable, which the body does not assign: the loop visits every element.
+func indexedOverAll(fn *FuncInfo, over types.Object) bool {
+	info := fn.Info()
+	loopVars := map[types.Object]ast.Stmt{}
+	inspectNoLit(fn.Body(), func(n ast.Node) bool {
+		switch s := n.(type) {
+		case *ast.ForStmt:
+			as, ok := s.Init.(*ast.AssignStmt)
+			if !ok || as.Tok != token.DEFINE || len(as.Lhs) != 1 || len(as.Rhs) != 1 {
+				return true
+			}
+			if z, isC := constInt(info, as.Rhs[0]); !isC || z != 0 {
+				return true
+			}
+			iv := objOf(info, as.Lhs[0])
+			inc, ok := s.Post.(*ast.IncDecStmt)
+			if iv == nil || !ok || inc.Tok != token.INC || !sameVar(info, inc.X, iv) {
+				return true
+			}
+			l, op, r, ok := cmpNorm(s.Cond, +1)
+			if !ok || op != token.LSS || !sameVar(info, l, iv) || !isLenOf(info, r, func(e ast.Expr) bool { return sameVar(info, e, over) }) {
+				return true
+			}
+			if assignedIn(info, s.Body, iv) {
+				return true
+			}
+			loopVars[iv] = s
+		case *ast.RangeStmt:
+			if s.Key == nil || s.Tok != token.DEFINE {
+				return true
+			}
+			okX := sameVar(info, s.X, over) || isLenOf(info, s.X, func(e ast.Expr) bool { return sameVar(info, e, over) })
+			if iv := objOf(info, s.Key); okX && iv != nil && !assignedIn(info, s.Body, iv) {
+				loopVars[iv] = s
+			}
+		}
+		return true
+	})
+	n, good := 0, true
+	inspectNoLit(fn.Body(), func(nd ast.Node) bool {
+		if ie, ok := nd.(*ast.IndexExpr); ok && sameVar(info, ie.X, over) {
+			n++
+			loop, isLoopVar := loopVars[objOf(info, ie.Index)]
+			if !isLoopVar || !(loop.Pos() <= ie.Pos() && ie.End() <= loop.End()) {
+				good = false
+			}
+		}
+		return true
+	})
+	return n > 0 && good
 }
